@@ -660,7 +660,7 @@ Definition wf_any (md : mode) (r : recur) (a : tp) (d : dur) : Prop :=
   r_dur r = Some d /\ step_dur d /\ valid_tp md a = true /\
   match r_start r, r_end r, r_reps r with
   | Some s, None, None => a = s
-  | Some s, Some e, Some n => a = s /\ 2 <= n /\ valid_tp md e = true
+  | Some s, Some e, Some n => a = s /\ 2 <= n /\ valid_tp md e = true /\ (instant md s <= instant md e)%Q
   | None, Some e, None => a = e
   | _, _, _ => False
   end.
@@ -844,17 +844,24 @@ Proof.
   destruct s as [s0|], e as [e0|]; try discriminate H; cbn [opt_valid] in Vs, Ve.
   - destruct reps as [n|].
     + assert (Hn : 2 <= n) by (cbn [zopt_eqb] in R1; lia).
-      destruct (tp_add_valid md s0 (dur_mul d (n - 1)) Vs) as (e' & E & V' & _). rewrite E in H.
-      injection H as <-. exists s0. unfold wf_any. cbn [r_dur r_start r_end r_reps].
-      repeat split; try assumption; try reflexivity; apply S.
+      pose proof (step_dur_mul d (n - 1) S ltac:(lia)) as Sm.
+      destruct (step_later md s0 (dur_mul d (n - 1)) Vs Sm) as (e' & E & V' & _ & I' & _). rewrite E in H.
+      pose proof (min_step_pos _ Sm) as Mp.
+      injection H as <-. exists s0. split; [|split; [reflexivity|split; reflexivity]].
+      unfold wf_any. cbn [r_dur r_start r_end r_reps].
+      split; [reflexivity|]. split; [exact S|]. split; [exact Vs|].
+      repeat split; try assumption; lra.
     + injection H as <-. exists s0. unfold wf_any. cbn [r_dur r_start r_end r_reps].
       repeat split; try assumption; try reflexivity; apply S.
   - destruct reps as [n|].
     + assert (Hn : 2 <= n) by (cbn [zopt_eqb] in R1; lia).
-      unfold tp_sub_dur in H.
-      destruct (tp_add_valid md e0 (dur_mul (dur_mul d (n - 1)) (-1)) Ve) as (s' & E & V' & _).
-      rewrite E in H. injection H as <-. exists s'. unfold wf_any. cbn [r_dur r_start r_end r_reps].
-      repeat split; try assumption; try reflexivity; try discriminate; apply S.
+      pose proof (step_dur_mul d (n - 1) S ltac:(lia)) as Sm.
+      destruct (step_earlier md e0 (dur_mul d (n - 1)) Ve Sm) as (s' & E & V' & _ & I' & _).
+      pose proof (min_step_pos _ Sm) as Mp.
+      rewrite E in H. injection H as <-. exists s'. split; [|split; [reflexivity|split; [reflexivity|discriminate]]].
+      unfold wf_any. cbn [r_dur r_start r_end r_reps].
+      split; [reflexivity|]. split; [exact S|]. split; [exact V'|].
+      repeat split; try assumption; lra.
     + injection H as <-. exists e0. unfold wf_any. cbn [r_dur r_start r_end r_reps].
       repeat split; try assumption; try reflexivity; apply S.
 Qed.
@@ -1032,3 +1039,175 @@ Lemma getitem_iter_both md r i :
      rec_getitem md r i = nth_error (iter_take md r k) (Z.to_nat i)) /\
   (i < 0 -> rec_getitem md r i = None).
 Proof. split; [intros k; apply getitem_iter|apply getitem_neg]. Qed.
+
+(* ====================================================================== *)
+(* 6. get_first_after by scanning (month/year intervals)                   *)
+(* ====================================================================== *)
+Definition later_min (md : mode) (l : nat -> list tp) (t : tp) (res : option tp) : Prop :=
+  match res with
+  | Some q => (exists k i, nth_error (l k) i = Some q) /\ (instant md t < instant md q)%Q /\
+              forall k i p, nth_error (l k) i = Some p -> (instant md t < instant md p)%Q ->
+                            (instant md q <= instant md p)%Q
+  | None => forall k i p, nth_error (l k) i = Some p -> (instant md p <= instant md t)%Q
+  end.
+
+Lemma first_after_scan_None md r t f res : first_after_scan md r t f None = Some res -> res = None.
+Proof. destruct f; cbn [first_after_scan]; intros H; [discriminate H|]. injection H as <-. reflexivity. Qed.
+
+Lemma first_after_scan_gen md r a d L t : gen_ok md r a d L -> dirb r = true -> valid_tp md t = true ->
+  forall fuel c res, valid_tp md c = true -> in_bounds md r (Some c) = Some true ->
+  first_after_scan md r t fuel (Some c) = Some res ->
+  later_min md (fun k => iter_from md r true k (Some c)) t res.
+Proof.
+  intros W Dir Vt. induction fuel as [|f IH]; intros c res Vc B H; [discriminate H|].
+  cbn [first_after_scan] in H.
+  destruct (tp_leb_spec md c t Vc Vt) as (b & E & Hb). rewrite E in H. destruct b.
+  - assert (Le : (instant md c <= instant md t)%Q) by (apply Hb; reflexivity).
+    unfold get_next in H.
+    destruct (step_gen md r a d L c W Vc) as (c' & Vc' & _ & _ & b' & B' & _ & St).
+    rewrite Dir in St. rewrite St in H. destruct b'.
+    + specialize (IH c' res Vc' B' H). destruct res as [q|]; cbn [later_min] in *.
+      * destruct IH as ((k & i & Hq) & Lt & Min). split; [|split; [exact Lt|]].
+        -- exists (S k), (S i). rewrite (iter_from_in md r true k c B), St. exact Hq.
+        -- intros k0 i0 p Hp Lp. apply iter_from_split in Hp.
+           destruct Hp as (_ & [[_ ->] | (k' & i' & _ & _ & Hp)]); [lra|].
+           rewrite St in Hp. apply (Min k' i' p Hp Lp).
+      * intros k0 i0 p Hp. apply iter_from_split in Hp.
+        destruct Hp as (_ & [[_ ->] | (k' & i' & _ & _ & Hp)]); [exact Le|].
+        rewrite St in Hp. apply (IH k' i' p Hp).
+    + apply first_after_scan_None in H. subst res. cbn [later_min].
+      intros k0 i0 p Hp. apply iter_from_split in Hp.
+      destruct Hp as (_ & [[_ ->] | (k' & i' & _ & _ & Hp)]); [exact Le|].
+      rewrite St, iter_from_None in Hp. destruct i'; discriminate Hp.
+  - injection H as <-. cbn [later_min].
+    assert (Lt : (instant md t < instant md c)%Q).
+    { destruct (Qlt_le_dec (instant md t) (instant md c)) as [K|K]; [exact K|].
+      apply Hb in K. discriminate K. }
+    split; [|split; [exact Lt|]].
+    + exists 1%nat, 0%nat. rewrite (iter_from_in md r true 0 c B). reflexivity.
+    + intros k0 i0 p Hp _. pose proof (iter_from_gen_le md r a d L k0 c i0 p W Vc) as K.
+      rewrite Dir in K. apply K. exact Hp.
+Qed.
+
+Lemma first_after_scan_total md r a d L t : gen_ok md r a d L -> dirb r = true -> valid_tp md t = true ->
+  forall fuel c, valid_tp md c = true -> (0 < fuel)%nat ->
+  (inject_Z (Z.of_nat fuel) * L > instant md t - instant md c + L)%Q ->
+  exists res, first_after_scan md r t fuel (Some c) = Some res.
+Proof.
+  intros W Dir Vt. pose proof (gen_L_pos _ _ _ _ _ W) as LP.
+  induction fuel as [|f IH]; intros c Vc F0 FL; [lia|].
+  cbn [first_after_scan].
+  destruct (tp_leb_spec md c t Vc Vt) as (b & E & Hb). rewrite E. destruct b; [|eexists; reflexivity].
+  assert (Le : (instant md c <= instant md t)%Q) by (apply Hb; reflexivity).
+  rewrite inj_succ_mul in FL.
+  assert (Fp : (0 < f)%nat) by (apply (fuel_pos f L (instant md t - instant md c)); [exact LP|lra|lra]).
+  unfold get_next.
+  destruct (step_gen md r a d L c W Vc) as (c' & Vc' & _ & I' & b' & _ & _ & St).
+  rewrite Dir in St, I'. rewrite St. destruct b'.
+  - apply (IH c' Vc' Fp). lra.
+  - destruct f; [lia|]. eexists. reflexivity.
+Qed.
+
+(* same body as in Props/C13Ext.v *)
+Definition later_min_iter (md : mode) (r : recur) (t : tp) (res : option tp) : Prop :=
+  match res with
+  | Some q => (exists k i, nth_error (iter_take md r k) i = Some q) /\ (instant md t < instant md q)%Q /\
+              forall k i p, nth_error (iter_take md r k) i = Some p -> (instant md t < instant md p)%Q ->
+                            (instant md q <= instant md p)%Q
+  | None => forall k i p, nth_error (iter_take md r k) i = Some p -> (instant md p <= instant md t)%Q
+  end.
+
+Lemma wf_any_anchor_in md r a d : wf_any md r a d -> in_bounds md r (Some a) = Some true.
+Proof.
+  intros W. pose proof (wf_any_gen md r a d W) as (_ & Va & _ & _ & _ & Vs & Ve & _).
+  destruct W as (_ & _ & _ & M). apply (in_bounds_true_intro md r a Va Vs Ve).
+  - destruct (r_start r) as [s|]; [|exact Logic.I]. destruct (r_end r), (r_reps r); try contradiction.
+    + destruct M as (-> & _). lra.
+    + subst a. lra.
+  - destruct (r_start r) as [s|], (r_end r) as [e|], (r_reps r); try contradiction; try exact Logic.I.
+    + destruct M as (-> & _ & _ & Le). exact Le.
+    + subst a. lra.
+Qed.
+
+Lemma first_after_any md r a d t fuel res : wf_any md r a d -> r_start r = Some a ->
+  is_exact d = false -> valid_tp md t = true ->
+  get_first_after md r t fuel = Some res ->
+  later_min_iter md r t res /\ ((instant md t < instant md a)%Q -> res = Some a).
+Proof.
+  intros W Sa Ex Vt H. pose proof (wf_any_gen md r a d W) as G.
+  pose proof G as (_ & Va & D & _ & _ & Vs & Ve & _).
+  assert (Dir : dirb r = true) by (unfold dirb; rewrite Sa; reflexivity).
+  pose proof (wf_any_anchor_in md r a d W) as Ba.
+  assert (TR : forall res', later_min md (fun k => iter_from md r true k (Some a)) t res' ->
+                            later_min_iter md r t res').
+  { intros res' K. unfold later_min_iter, later_min in *.
+    assert (E : forall k, iter_take md r k = iter_from md r true k (Some a)).
+    { intros k. rewrite (iter_take_gen md r a d _ k G), Dir. reflexivity. }
+    destruct res' as [q|].
+    - destruct K as ((k & i & Hq) & Lt & Min). split; [exists k, i; rewrite E; exact Hq|].
+      split; [exact Lt|]. intros k0 i0 p Hp. rewrite E in Hp. apply (Min k0 i0 p Hp).
+    - intros k0 i0 p Hp. rewrite E in Hp. apply (K k0 i0 p Hp). }
+  unfold get_first_after in H. rewrite Sa in H.
+  destruct (in_bounds_char md r t Vt Vs Ve) as (b0 & B & Hb). rewrite B in H. rewrite Sa in Hb.
+  destruct b0.
+  - rewrite D, Ex in H. destruct Hb as [Hb _]. destruct (Hb eq_refl) as [Ls _].
+    split; [|intros K; exfalso; lra].
+    apply TR. apply (first_after_scan_gen md r a d _ t G Dir Vt fuel a res Va Ba H).
+  - destruct (tp_ltb_spec md t a Vt Va) as (c & Ec & Hc). rewrite Ec in H. destruct c.
+    + injection H as <-. assert (Lt : (instant md t < instant md a)%Q) by (apply Hc; reflexivity).
+      split; [|intros _; reflexivity]. apply TR. cbn [later_min].
+      split; [exists 1%nat, 0%nat; rewrite (iter_from_in md r true 0 a Ba); reflexivity|].
+      split; [exact Lt|]. intros k0 i0 p Hp _.
+      pose proof (iter_from_gen_le md r a d _ k0 a i0 p G Va) as K. rewrite Dir in K. apply K. exact Hp.
+    + injection H as <-.
+      assert (Ls : (instant md a <= instant md t)%Q).
+      { destruct (Qlt_le_dec (instant md t) (instant md a)) as [K|K]; [|exact K].
+        apply Hc in K. discriminate K. }
+      split; [|intros K; exfalso; lra]. apply TR. cbn [later_min].
+      intros k0 i0 p Hp. rewrite <- Dir in Hp.
+      destruct (iter_from_gen md r a d _ G k0 a i0 p Va Hp) as (Vp & _).
+      pose proof (iter_from_in_bounds _ _ _ _ _ _ _ Hp) as Bp.
+      destruct (in_bounds_char md r p Vp Vs Ve) as (bp & Ebp & Hbp). rewrite Bp in Ebp. injection Ebp as <-.
+      destruct Hbp as [Hbp _]. destruct (Hbp eq_refl) as [_ Pe].
+      destruct (r_end r) as [e|].
+      * destruct (Qlt_le_dec (instant md e) (instant md t)) as [K|K]; [lra|].
+        exfalso. assert (false = true); [|discriminate]. apply Hb. split; assumption.
+      * exfalso. assert (false = true); [|discriminate]. apply Hb. split; [exact Ls|exact Logic.I].
+Qed.
+
+Lemma first_after_total_any md r a d t fuel : wf_any md r a d -> r_start r = Some a ->
+  is_exact d = false -> valid_tp md t = true -> (0 < fuel)%nat ->
+  (inject_Z (Z.of_nat fuel) * min_step d > instant md t - instant md a + min_step d)%Q ->
+  exists res, get_first_after md r t fuel = Some res.
+Proof.
+  intros W Sa Ex Vt F0 FL. pose proof (wf_any_gen md r a d W) as G.
+  pose proof G as (_ & Va & D & _ & _ & Vs & Ve & _).
+  assert (Dir : dirb r = true) by (unfold dirb; rewrite Sa; reflexivity).
+  unfold get_first_after. rewrite Sa.
+  destruct (in_bounds_char md r t Vt Vs Ve) as (b0 & B & _). rewrite B. destruct b0.
+  - rewrite D, Ex. apply (first_after_scan_total md r a d _ t G Dir Vt fuel a Va F0 FL).
+  - destruct (tp_ltb_spec md t a Vt Va) as (c & Ec & _). rewrite Ec. destruct c; eexists; reflexivity.
+Qed.
+
+(* ====================================================================== *)
+(* 7. get_first_after has no answer on a reverse series                    *)
+(* ====================================================================== *)
+(* the code compares with / subtracts the absent start point: TypeError on the
+   real package for exact intervals and for probes later than the end (and a
+   plain None for month/year intervals, although a later member exists); the
+   model's get_first_after gives its "raised" value whatever the fuel *)
+Lemma first_after_no_start md r t fuel : r_start r = None -> get_first_after md r t fuel = None.
+Proof. intros S. unfold get_first_after. rewrite S. reflexivity. Qed.
+
+Lemma first_after_rev_refuted :
+  exists md r e d t, wf_rev md r e d /\ valid_tp md t = true /\
+    (instant md t < instant md e)%Q /\ get_is_valid md r e 5 = Some true /\
+    forall fuel, get_first_after md r t fuel = None.
+Proof.
+  exists G, (mkRec None None (Some (DU 0 0 0 6 0 0)) (Some (mkTp (Cal 2002 5 5) (HMS 1 0 0) (mkZone 0 0))) None 4),
+    (mkTp (Cal 2002 5 5) (HMS 1 0 0) (mkZone 0 0)), (DU 0 0 0 6 0 0),
+    (mkTp (Cal 2002 5 4) (HMS 13 0 0) (mkZone 0 0)).
+  split; [repeat split; vm_compute; reflexivity|].
+  split; [vm_compute; reflexivity|]. split; [vm_compute; reflexivity|].
+  split; [vm_compute; reflexivity|]. intros fuel. apply first_after_no_start. reflexivity.
+Qed.
